@@ -85,16 +85,17 @@ check:
 		goto pop;
 	}
 
-	/* otherwise check if the current exception overlaps with E */
+	/* otherwise check if the current exception names E, i.e. starts
+	 * when E starts (RFC 5545 3.8.5.1), regardless of durations */
 	with (echs_range_t r = echs_event_range(e)) {
-		if (echs_range_overlaps_p(r, this->ex)) {
+		if (echs_range_starts_p(r, this->ex)) {
 			/* yes it does */
 			(void)echs_evstrm_pop(this->e);
 			e = echs_evstrm_next(this->e);
 			goto check;
-		} else if (echs_range_precedes_p(this->ex, r)) {
-			/* we can't say for sure yet as there could be
-			 * another exception in the range of E */
+		} else if (echs_instant_lt_p(this->ex.beg, r.beg)) {
+			/* this exception is in the past of E, there could be
+			 * another exception that names E */
 			echs_event_t ex = echs_evstrm_pop(this->x);
 			this->ex = echs_event_range(ex);
 			goto check;
